@@ -437,6 +437,7 @@ func genC08(t *rapid.T, nDescs, nSteps int) C08Case {
 			eol = "\r\n"
 		}
 		desc := RenderC07(tree, eol, rapid.IntRange(0, 2).Draw(t, "trailing"), rapid.IntRange(0, 3).Draw(t, "perline") == 0)
+		desc = blankTail(t, desc, eol)
 		c.Descs = append(c.Descs, C07Case{Desc: desc, Tree: tree, Origin: "batch"})
 		c.Steps = append(c.Steps, genSteps(t, fmt.Sprintf("k%d", len(c.Descs)-1), tree, nSteps)...)
 	}
